@@ -147,10 +147,59 @@ def ref_duration(t):
 
 # ----------------------------------------------------------------------------- block cases
 
+def rfc_local(provider, zone, wall):
+    """RFC 5545 3.3.5, form #3: the instant of a local time with time zone reference, from the tz library itself.  A local time that
+    occurs twice is its first occurrence; one that does not occur is read with the UTC offset before the gap.  -> utcoffset"""
+    naive = datetime(*wall)
+    if provider == "pytz":
+        import pytz
+        tz = pytz.timezone(zone)
+        a, b = tz.localize(naive, is_dst=True), tz.localize(naive, is_dst=False)
+        try:
+            return tz.localize(naive, is_dst=None).utcoffset(), "plain"
+        except pytz.AmbiguousTimeError:
+            return min(a, b).utcoffset(), "repeated"
+        except pytz.NonExistentTimeError:
+            return max(a, b).utcoffset(), "skipped"
+    import zoneinfo
+    d0, d1 = naive.replace(tzinfo=zoneinfo.ZoneInfo(zone)), naive.replace(tzinfo=zoneinfo.ZoneInfo(zone), fold=1)
+    kind = "plain" if d0.utcoffset() == d1.utcoffset() else "repeated" if d0.utcoffset() > d1.utcoffset() else "skipped"
+    return d0.utcoffset(), kind       # PEP 495 fold=0 is exactly the RFC's reading
+
+
+def j_zoned_text(case, out):
+    wall, zone = case["wall"], case["tz"]
+    text = "%04d%02d%02dT%02d%02d%02d" % tuple(wall)
+    for provider in sut.PROVIDERS:
+        sut.reset(provider)
+        want_off, kind = rfc_local(provider, zone, wall)
+        via = case["via"]
+        if via == "vDatetime":
+            got = vDatetime.from_ical(text, zone)
+        elif via == "vDDDTypes":
+            got = vDDDTypes.from_ical(text, zone)
+        elif via == "vPeriod":
+            got = vPeriod.from_ical(text + "/PT1H", zone)[0]
+        else:
+            from icalendar import Event
+            got = Event.from_ical(f"BEGIN:VEVENT\r\nDTSTART;TZID={zone}:{text}\r\nEND:VEVENT\r\n")["DTSTART"].dt
+        tag = f"@{kind}-local-time/{provider}"
+        if not isinstance(got, datetime) or got.tzinfo is None or got.replace(tzinfo=None) != datetime(*wall):
+            out.append(Failure("C03.rfc-value" + tag, "zoned-text-wall-or-awareness-differs/" + via, f"{text!r} {zone}: {got!r}"))
+        elif got.utcoffset() != want_off:
+            out.append(Failure("C03.rfc-value" + tag, "zoned-text-is-another-instant", f"{provider} {via} {text!r} TZID={zone}: {got!r} has offset {got.utcoffset()}, RFC 5545 3.3.5 assigns {want_off}"))
+
+
 def judge(case):
     sut.reset()
     out = []
     k = case["t"]
+    if k == "zoned-text":
+        try:
+            j_zoned_text(case, out)
+        except Exception as e:  # noqa: BLE001
+            out.append(Failure("C03.rfc-value", "zoned-text-raises/" + exc_signature(e), f"{case!r}: {e!r}"[:300]))
+        return out
     try:
         if k == "date-block":
             for o in range(case["from"], case["from"] + case["n"] * case["step"], case["step"]):
@@ -360,6 +409,9 @@ def info(case):
     k = case["t"]
     w = 1
     classes = []
+    if k == "zoned-text":
+        kinds = sorted({rfc_local(p, case["tz"], case["wall"])[1] for p in sut.PROVIDERS})
+        return {"nontrivial": kinds != ["plain"], "classes": ["t:zoned-text", "via:" + case["via"]] + ["local-time:" + x for x in kinds]}
     if k == "date-block":
         w = case["n"]
         classes = ["t:date"]
@@ -395,7 +447,12 @@ def info(case):
     return {"nontrivial": True, "classes": classes, "weight": w}
 
 
-REGIONS = {}
+def region_pytz_repeated(case):
+    """RC-AZ: a local time with zone reference; the clause suffix restricts it to times that pytz knows as occurring twice"""
+    return case.get("t") == "zoned-text"
+
+
+REGIONS = {"zoned-text": region_pytz_repeated}
 
 # ----------------------------------------------------------------------------- streams
 
@@ -558,6 +615,22 @@ def grammar_texts(draw):
     return {"t": "text", "kind": kind, "text": t}
 
 
+@st.composite
+def _zoned_texts(draw):
+    from checks.c11_zoned_datetimes import transitions, AWKWARD, all_zones
+    zone = draw(st.one_of(st.sampled_from(["Europe/Berlin", "America/New_York", "Australia/Lord_Howe", "Europe/Dublin", "Africa/Casablanca", "Asia/Kolkata", "America/St_Johns",
+                                           "Pacific/Apia", "Asia/Tehran", "America/Sao_Paulo"]), st.sampled_from(all_zones()), st.sampled_from(AWKWARD)))
+    tr = transitions(zone) if zone != "UTC" else []
+    if tr and draw(st.integers(0, 4)) > 0:
+        t, a, b = draw(st.sampled_from(tr))
+        w = t + timedelta(seconds=draw(st.sampled_from([a, b])) + draw(st.sampled_from([0, 1, -1, 900, -900, 1800, -1800, 3599, -3600, 7200])))
+        if not 1900 <= w.year <= 2100:
+            w = datetime(2021, 10, 31, 2, 30)
+    else:
+        w = datetime(draw(st.integers(1900, 2099)), draw(st.integers(1, 12)), draw(st.integers(1, 28)), draw(st.integers(0, 23)), draw(st.integers(0, 59)), draw(st.integers(0, 59)))
+    return {"t": "zoned-text", "tz": zone, "wall": [w.year, w.month, w.day, w.hour, w.minute, w.second], "via": draw(st.sampled_from(["vDatetime", "vDDDTypes", "vPeriod", "component"]))}
+
+
 def streams(tier):
     n = 6000 if tier == "quick" else 60000
     return [
@@ -568,6 +641,7 @@ def streams(tier):
         Stream("all-durations-2-days", "enum", 346, 16, lambda i: {"t": "duration-block", "from": -172800 + i * B, "n": min(B, 345601 - i * B)}, True, True),
         Stream("values-and-grammar-texts", "hyp", n, 16, _hyp),
         Stream("equal-hash-twins", "hyp", 200, 2, _twins),
+        Stream("local-times-with-zone-reference", "hyp", 400 if tier == "quick" else 8000, 8, _zoned_texts),
     ]
 
 
